@@ -23,6 +23,7 @@ var errCustomPlain = errors.New("vf-custom-plain-error-77c1")
 //	{% xeval EXPR %}           EvaluateString, printed with fmt.Sprint
 //	{% xset NAME = EXPR %}     EvaluateString + Set
 //	{% xget NAME %}            Get
+//	{% xbump NAME %}           Bindings()[NAME]++ (a write through the map Bindings returns)
 //	{% xinfo ARGS %}           TagName, TagArgs, SourceFile, len(Bindings)
 //	{% xfile ARG %}            ExpandTagArg + RenderFile relative to SourceFile
 //	{% xfail ARGS %}           Errorf
@@ -54,6 +55,17 @@ func RegisterCustom(e *liquid.Engine) {
 			return "", err
 		}
 		c.Set(strings.TrimSpace(name), v)
+		return "", nil
+	})
+	// xbump NAME: counts in the current environment by writing through Bindings(), the way tags written for Jekyll do
+	e.RegisterTag("xbump", func(c render.Context) (string, error) {
+		name := strings.TrimSpace(c.TagArgs())
+		b := c.Bindings()
+		if b == nil {
+			return "", c.Errorf("xbump: no bindings")
+		}
+		n, _ := b[name].(int)
+		b[name] = n + 1
 		return "", nil
 	})
 	e.RegisterTag("xget", func(c render.Context) (string, error) {
@@ -121,7 +133,7 @@ var customFragments = []string{"", "x", "pre-{{ x }}-post", "{{ s }}{{ n }}", "{
 
 // CustomSources builds hostile templates around the custom tags.
 func customSource(pick func(n int) int) string {
-	tags := []string{"xecho", "xeval", "xset", "xget", "xinfo", "xfile", "xfail", "xwrapfail", "xplainfail"}
+	tags := []string{"xecho", "xeval", "xset", "xget", "xbump", "xinfo", "xfile", "xfail", "xwrapfail", "xplainfail"}
 	blocks := []string{"xwrap", "xtwice", "xwhen", "xbfile", "xbfail", "xbplain"}
 	bodies := []string{"", "body", "{{ x }}", "{% break %}", "{% xecho {{ x }} %}", "{% for i in (1..2) %}{{ i }}{% continue %}{% endfor %}", "{{ 1 | divided_by: 0 }}", "{% xset x = 5 %}{{ x }}", "{% assign x = 9 %}"}
 	var sb strings.Builder
